@@ -21,7 +21,8 @@ CASE_TIMEOUT = 30
 RULE = (
     "n in 2..6 flows started by main; flow i: [@loop(L1|NEW)] [priority p in {1.0,0.5,0.1}] match Ev(subset of a=1,b=2,c=3 "
     "[one value wrong => does not fit]) then start UtteranceBotAction(script=A|B|C) or GestureBotAction(gesture=A|B); "
-    "direct or wrapped one level down (all flows of a case use the same depth); event Ev(a=1,b=2,c=3); tie-break index list "
+    "direct or wrapped one level down (all flows of a case use the same depth); in one direct case of three a second round follows: the co-winners "
+    "share one action object, its Finished event is fed and they compete again on `match $a.Finished()` (only priorities differ) with second actions; event Ev(a=1,b=2,c=3); tie-break index list "
     "drawn. Non-trivial = some loop has >=3 fitting flows with >=2 distinct scores, or an exact tie between different "
     "actions, or >=2 loops with fitting flows; distinct by case."
 )
@@ -60,7 +61,15 @@ def _case(draw):
     if draw(st.booleans()):
         # force interesting shapes: copy the specificity of flow 0 to flow 1 (tie) with a different action
         flows[1] = dict(flows[1], mentioned=flows[0]["mentioned"], wrong=flows[0]["wrong"], priority=flows[0]["priority"], loop=flows[0]["loop"])
-    return {"flows": flows, "wrapped": draw(st.integers(0, 3)) == 0, "choices": draw(st.lists(st.integers(0, 5), min_size=1, max_size=4))}
+    wrapped = draw(st.integers(0, 3)) == 0
+    stage2 = None
+    if not wrapped and draw(st.integers(0, 2)) == 0:
+        # second round: the co-winners of round 1 share ONE action object; when it finishes they compete again, now on a match
+        # that is bound to the shared reference (`match $a.Finished()`), so only the declared priorities tell them apart
+        for f in flows:
+            f["loop"] = None
+        stage2 = [draw(st.integers(0, len(ACTIONS) - 1)) for _ in flows]
+    return {"flows": flows, "wrapped": wrapped, "stage2": stage2, "choices": draw(st.lists(st.integers(0, 5), min_size=1, max_size=4))}
 
 
 def strategy(tier):
@@ -78,7 +87,11 @@ def program(case):
             lines += [f"flow inner{i}"] + prio + [f"  match Ev({args})", ""]
             lines += deco + [f"flow c{i}", f"  await inner{i}", f'  start {typ}({key}="{val}")', f"  match Never{i}()", ""]
         else:
-            lines += deco + [f"flow c{i}"] + prio + [f"  match Ev({args})", f'  start {typ}({key}="{val}")', f"  match Never{i}()", ""]
+            second = []
+            if case.get("stage2"):
+                t2, k2, v2 = ACTIONS[case["stage2"][i]]
+                second = ["  match $a.Finished()", f'  start {t2}({k2}="{v2}2")']
+            lines += deco + [f"flow c{i}"] + prio + [f"  match Ev({args})", f'  start {typ}({key}="{val}") as $a'] + second + [f"  match Never{i}()", ""]
     lines.append("flow main")
     for i in range(len(case["flows"])):
         lines.append(f"  start c{i}")
@@ -167,6 +180,45 @@ def prop(case):
         raise Violation("wrong-actions", f"{desc}: started actions {dict(starts)}, expected {dict(exp)} (each winning action exactly once per loop)")
     if fitting_groups >= 2:
         nt = True
+    stage2_done = False
+    if case.get("stage2") and fitting_groups == 1:
+        # round 2: finish the (single, shared) action of round 1
+        (g, members), = [(g, m) for g, m in groups.items() if any(score(flows[i]) > 0 for i in m)]
+        winners1 = sorted(i for i in members if observed[i] == "started" and score(flows[i]) > 0)
+        start_ev = [e for e in out if e["type"].startswith("Start") and e["type"].endswith("BotAction")]
+        if len(start_ev) == 1 and winners1:
+            e0 = start_ev[0]
+            smh.CHOOSER.reset(case["choices"][::-1])
+            out2 = smh.feed(state, smh.ev(e0["type"][5:] + "Finished", action_uid=e0["action_uid"], is_success=True))
+            prio = lambda i: flows[i]["priority"] if flows[i]["priority"] else 1.0  # noqa: E731
+            top = max(prio(i) for i in winners1)
+            tied = [i for i in winners1 if abs(prio(i) - top) <= 1e-9]
+            options = []
+            for w in tied:
+                a2 = case["stage2"][w]
+                ws = sorted(i for i in winners1 if case["stage2"][i] == a2)
+                if (a2, ws) not in options:
+                    options.append((a2, ws))
+            status2 = {}
+            for fs in state.flow_states.values():
+                if fs.flow_id.startswith("c") and fs.flow_id[1:].isdigit():
+                    status2[int(fs.flow_id[1:])] = fs.status.value
+            running2 = sorted(i for i in winners1 if status2.get(i) == "started")
+            match2 = [o for o in options if o[1] == running2]
+            d2 = desc + " | round 2 on the shared action's Finished event: " + "; ".join(f"c{i}[priority={prio(i)} action2={ACTIONS[case['stage2'][i]][0][:3]}:{ACTIONS[case['stage2'][i]][2]}2]" for i in winners1)
+            if not match2:
+                raise Violation("wrong-winners-round2", f"{d2}: still running {['c%d' % i for i in running2]}, allowed winner sets {[['c%d' % i for i in o[1]] for o in options]}")
+            starts2 = Counter()
+            for e in out2:
+                if e["type"].startswith("Start") and e["type"].endswith("BotAction"):
+                    typ = e["type"][5:]
+                    starts2[(typ, e.get("script" if typ == "UtteranceBotAction" else "gesture"))] += 1
+            t2, _, v2 = ACTIONS[match2[0][0]]
+            if starts2 != Counter({(t2, v2 + "2"): 1}):
+                raise Violation("wrong-actions-round2", f"{d2}: started {dict(starts2)}, expected exactly one {t2}:{v2}2")
+            stage2_done = True
+            if len(winners1) >= 2:
+                nt = True
     labels = [f"n{len(flows)}", f"loops{len(groups)}", "wrapped" if case["wrapped"] else "direct"]
     if any(f["priority"] not in (None, 1.0) for f in flows):
         labels.append("priority")
@@ -174,6 +226,8 @@ def prop(case):
         labels.append("has-nonfitting")
     if smh.CHOOSER.used:
         labels.append("tie-break-used")
+    if stage2_done:
+        labels.append("round2-on-shared-reference")
     if any(len([1 for o in [flows[i]["action"] for i in m]]) != len({flows[i]["action"] for i in m}) for m in groups.values()):
         labels.append("equal-actions")
     view = {"flows": desc, "started": {f"{k[0]}:{k[1]}": v for k, v in starts.items()}, "status": {f"c{i}": s for i, s in observed.items()}}
